@@ -257,6 +257,63 @@ def model_engines(ex: ObjExec, cnt: Counter) -> list[tuple[str, MObj]]:
     return out
 
 
+NON_CANONICAL = [
+    ("a text with comments, blank lines and keys in another order", """# a controller
+Engine: dimmer   # the name
+
+  description: written by hand
+InputVariable: Ambient
+    range: 0.000 1.000
+    enabled: true
+    lock-range: false
+    term: DARK Ramp 0.500 0.000   # falling
+    term: BRIGHT Ramp 0.500 1.000
+
+OutputVariable: Power
+  lock-previous: true
+  default: nan
+  range: 0.000 2.000
+  enabled: true
+  lock-range: true
+  defuzzifier: Centroid 200
+  aggregation: Maximum
+  term: LOW Triangle 0.000 0.500 1.000 0.500
+  term: HIGH Triangle 1.000 1.500 2.000
+RuleBlock: rules
+  activation: General
+  implication: Minimum
+  disjunction: none
+  conjunction: none
+  enabled: true
+  rule: if Ambient is DARK then Power is HIGH
+  rule: if Ambient is BRIGHT then Power is LOW with 0.500
+"""),
+    ("a text with components interleaved and optional lines left out", """Engine: mixed
+OutputVariable: O
+  defuzzifier: WeightedAverage
+  term: k Constant 1.500
+RuleBlock: first
+  rule: if A is any then O is k
+InputVariable: A
+  term: t Rectangle -inf inf
+RuleBlock: second
+  activation: Threshold >= 0.250
+  conjunction: AlgebraicProduct
+"""),
+    ("a text with extra spaces and a weighted defuzzifier type", """Engine:   spaced
+InputVariable:   X
+  range:   -1.000    1.000
+  term:   z   ZShape   -1.000   1.000   0.750
+OutputVariable:   Y
+  defuzzifier:   WeightedSum   TakagiSugeno
+  default:   0.000
+  term:   lin   Linear   1.000   2.000
+RuleBlock:
+  rule:   if   X   is   very   z   then   Y   is   lin
+"""),
+]
+
+
 # ---------------------------------------------------------------------------------------------- comparison
 RUNTIME_FIELDS = {"__bases__", "<loaded-with>", "_value", "previous_value", "fuzzy", "activation_degree", "triggered", "engine", "_engine", "root", "expression", "conclusions", "variables"}
 
@@ -397,6 +454,34 @@ def roundtrip(check: Check, rule: str = "RT-sem") -> None:
             i = next((k for k, (x, y) in enumerate(zip(la, lb)) if x != y), min(len(la), len(lb)))
             bad.setdefault("fixed-point", (f"{label}: exporting the re-imported engine gives a different text; first difference in line {i + 1}: "
                                            f"`{(la[i] if i < len(la) else '<end>').strip()}` becomes `{(lb[i] if i < len(lb) else '<end>').strip()}`", None))
+    # "any text the importer accepts is normalised by one import / export cycle to a fixed point": texts that are not what the exporter writes -
+    # comments, blank lines, other indentation, keys in another order, components interleaved, defaults spelled out or left out
+    for label, doc in NON_CANONICAL:
+        cases += 1
+        try:
+            exporter = ex.instantiate(exp_c, [], {}, E0)
+            importer = ex.instantiate(imp_c, [], {}, E0)
+            e1 = ex.invoke(imp_from, [importer, doc], {}, E0)
+            t1 = ex.invoke(exp_engine, [exporter, e1], {}, E0)
+            e2 = ex.invoke(imp_from, [importer, t1], {}, E0)
+            t2 = ex.invoke(exp_engine, [exporter, e2], {}, E0)
+        except (Raised, Internal) as err:
+            bad.setdefault("normalises", (f"{label}: importing / exporting the text fails with {err.cls}{(' (' + err.why + ')') if isinstance(err, Internal) else ''}",
+                                          getattr(err, "node", None)))
+            continue
+        except Unknown as err:
+            undecided.append(f"{label}: {err}")
+            continue
+        if t1 != t2:
+            la, lb = t1.split("\n"), t2.split("\n")
+            i = next((k for k, (x, y) in enumerate(zip(la, lb)) if x != y), min(len(la), len(lb)))
+            bad.setdefault("normalises", (f"{label}: one import / export cycle does not reach a fixed point; line {i + 1} `{(la[i] if i < len(la) else '<end>').strip()}` becomes "
+                                          f"`{(lb[i] if i < len(lb) else '<end>').strip()}` in the next cycle", None))
+        diffs = []
+        differences(e1, e2, "", diffs, set(), limit=10)
+        for d in diffs:
+            import re
+            bad.setdefault("normalises", (f"{label}: the engine imported from the normalised text differs from the one imported from the original: {re.sub(r'^<[^>]+> ', '', d)}", None))
     if len(undecided) == cases:
         raise AnalysisError(f"{rule}: no model engine could be taken through the round trip: {undecided[0]}")
     for u in undecided:
@@ -412,11 +497,12 @@ def roundtrip(check: Check, rule: str = "RT-sem") -> None:
     check.require(not structure_keys, rule, f"{construct}/structure", f"every persistent field of every component of the {cases} model engines comes back with its value "
                   f"({fields_compared} fields compared)" if not structure_keys else f"{len(structure_keys)} fields do not come back (reported separately)", loc(imp_from), {}, exhaustive=True, cases=cases) \
         if not structure_keys else None
-    for aspect in ("fixed-point", "no-internal-error", "engine-references"):
+    for aspect in ("fixed-point", "no-internal-error", "engine-references", "normalises"):
         ok = aspect not in bad
         check.require(ok, rule, f"{construct}/{aspect}", {"fixed-point": "export(import(export(E))) == export(E) for every model engine",
                                                            "no-internal-error": "the round trip of every model engine completes",
-                                                           "engine-references": "every imported term that refers to its engine refers to the imported engine"}[aspect] if ok else bad[aspect][0],
+                                                           "engine-references": "every imported term that refers to its engine refers to the imported engine",
+                                                           "normalises": f"texts the exporter would not write ({len(NON_CANONICAL)} documents) are normalised by one import / export cycle"}[aspect] if ok else bad[aspect][0],
                       loc(exp_engine), {}, exhaustive=True, cases=cases)
     check.notes.append(f"{rule}: {cases} model engines, {cnt.n} symbolic numbers, {fields_compared} fields compared")
 
